@@ -243,61 +243,6 @@ pub fn worker(w: &mut Worker) {
     let arity = tier.pick(2usize, 3usize);
     let flag_passes = FLAGS.len();
 
-    // (a) every command x every argument tuple
-    for name in &names {
-        let pool_idx: Vec<usize> = (0..POOL.len()).collect();
-        for tuple in Strings::new(&pool_idx[..], 0, arity) {
-            let uses_flag = tuple.iter().any(|&i| POOL[i] == "--FLAG");
-            for fp in 0..flag_passes {
-                if fp > 0 && !uses_flag {
-                    continue;
-                }
-                if !w.take() {
-                    continue;
-                }
-                let flag = FLAGS[fp];
-                let shown: Vec<&str> = tuple.iter().map(|&i| if POOL[i] == "--FLAG" { flag } else { POOL[i] }).collect();
-                let cj = json!({"kind": "command", "command": name, "args": shown});
-                w.begin(|| cj.clone());
-                reset_work(&work);
-                let mut p = prepare();
-                let args: Vec<String> = tuple.iter().map(|&i| resolve(&p, POOL[i], flag)).collect();
-                let a: Vec<&str> = args.iter().map(|s| s.as_str()).collect();
-                let out = p.s.call_out(name, &a, Some("out"));
-                w.add_transitions(1);
-                finish(w, out, &cj, name, &shown);
-            }
-        }
-    }
-
-    // (a2) quick tier: option flag followed by two operands (the thorough tier has every triple)
-    if tier == Tier::Quick {
-        for name in &names {
-            for flag in FLAGS.iter().take(4).chain(["-r"].iter()) {
-                for i in 0..POOL.len() {
-                    for j in 0..POOL.len() {
-                        if POOL[i] == "--FLAG" || POOL[j] == "--FLAG" {
-                            continue;
-                        }
-                        if !w.take() {
-                            continue;
-                        }
-                        let shown: Vec<&str> = vec![flag, POOL[i], POOL[j]];
-                        let cj = json!({"kind": "command", "command": name, "args": shown});
-                        w.begin(|| cj.clone());
-                        reset_work(&work);
-                        let mut p = prepare();
-                        let args: Vec<String> = shown.iter().map(|v| resolve(&p, v, flag)).collect();
-                        let a: Vec<&str> = args.iter().map(|s| s.as_str()).collect();
-                        let out = p.s.call_out(name, &a, Some("out"));
-                        w.add_transitions(1);
-                        finish(w, out, &cj, name, &shown);
-                    }
-                }
-            }
-        }
-    }
-
     // (b) two-step histories on one state
     let pairs: Vec<(&str, Vec<&str>, &str, Vec<&str>)> = vec![
         ("release", vec!["@array"], "array_push", vec!["@array", "x"]),
@@ -431,7 +376,7 @@ pub fn worker(w: &mut Worker) {
     }
 
     // (h) a function that calls itself without end from condition position; (g) aliases that stand for themselves, directly and through one another
-    for text in ["alias a a\na\necho done", "alias a a x\nr = a y\necho done", "alias a b\nalias b a\nr = a x\necho done", "alias a b\nalias b c\nalias c a\nif a x\nend\necho done", "alias a not a\nr = a\necho done"] {
+    for text in ["alias a a\na\necho done", "alias a a x\nr = a y\necho done", "alias a b\nalias b a\nr = a x\necho done", "alias a b\nalias b c\nalias c a\nif a x\nend\necho done", "alias a not a\nr = a\necho done", "fn f\nend\neval f\necho done", "fn f\nreturn v\nend\nx = eval f a\necho done", "fn f\nend\nalias al f\nr = eval al\necho done"] {
         if !w.take() {
             continue;
         }
@@ -487,6 +432,63 @@ pub fn worker(w: &mut Worker) {
             Ok(_) => w.pass(true, hash64(&("cycle", variant))),
         }
     }
+    // the two big sweeps come last: when a loaded machine reaches the wall cap, the small families
+    // above have all run
+    // (a) every command x every argument tuple
+    for name in &names {
+        let pool_idx: Vec<usize> = (0..POOL.len()).collect();
+        for tuple in Strings::new(&pool_idx[..], 0, arity) {
+            let uses_flag = tuple.iter().any(|&i| POOL[i] == "--FLAG");
+            for fp in 0..flag_passes {
+                if fp > 0 && !uses_flag {
+                    continue;
+                }
+                if !w.take() {
+                    continue;
+                }
+                let flag = FLAGS[fp];
+                let shown: Vec<&str> = tuple.iter().map(|&i| if POOL[i] == "--FLAG" { flag } else { POOL[i] }).collect();
+                let cj = json!({"kind": "command", "command": name, "args": shown});
+                w.begin(|| cj.clone());
+                reset_work(&work);
+                let mut p = prepare();
+                let args: Vec<String> = tuple.iter().map(|&i| resolve(&p, POOL[i], flag)).collect();
+                let a: Vec<&str> = args.iter().map(|s| s.as_str()).collect();
+                let out = p.s.call_out(name, &a, Some("out"));
+                w.add_transitions(1);
+                finish(w, out, &cj, name, &shown);
+            }
+        }
+    }
+
+    // (a2) quick tier: option flag followed by two operands (the thorough tier has every triple)
+    if tier == Tier::Quick {
+        for name in &names {
+            for flag in FLAGS.iter().take(4).chain(["-r"].iter()) {
+                for i in 0..POOL.len() {
+                    for j in 0..POOL.len() {
+                        if POOL[i] == "--FLAG" || POOL[j] == "--FLAG" {
+                            continue;
+                        }
+                        if !w.take() {
+                            continue;
+                        }
+                        let shown: Vec<&str> = vec![flag, POOL[i], POOL[j]];
+                        let cj = json!({"kind": "command", "command": name, "args": shown});
+                        w.begin(|| cj.clone());
+                        reset_work(&work);
+                        let mut p = prepare();
+                        let args: Vec<String> = shown.iter().map(|v| resolve(&p, v, flag)).collect();
+                        let a: Vec<&str> = args.iter().map(|s| s.as_str()).collect();
+                        let out = p.s.call_out(name, &a, Some("out"));
+                        w.add_transitions(1);
+                        finish(w, out, &cj, name, &shown);
+                    }
+                }
+            }
+        }
+    }
+
 }
 
 fn finish(w: &mut Worker, out: Out, cj: &Value, name: &str, shown: &[&str]) {
@@ -552,7 +554,7 @@ pub fn crash_sig(case: &Value, kind: &str) -> String {
     }
 }
 
-pub const RULE: &str = "(a) every registered command of the standard library (discovered at run time; excluded: read, sleep, exec, spawn, exit, watchdog, everything under std::net, test_directory/test_file, cd, temp_file/temp_dir) x every argument tuple up to the arity bound from a 28-value pool {empty, NaN, a byte array that is not UTF-8 (a character cut off at its end), a map whose keys include 'a=b', the empty key and a key with a line break, a lone line break, multi-byte text at two byte alignments, a, 'a b', j (the name of a decoded JSON array variable set whose length entry is 99999999999), multi-byte, -1, 0, 1, 2.5, 20-digit number, i64::MAX, i64::MIN, live array/map/set/byte-array handle, an array containing its own handle, a map whose child array points back to it, an array holding a map that holds itself (a cycle not through the root), released handle, -r, text with a line break, a flag (each of the 18 option flags the library's commands know)}, each on a freshly prepared context in a scratch working directory that is reset before every case to the tree {file a, file 0, directory 1 with a file} (the quick tier adds every 'flag operand operand' triple); (b) 15 two-step histories (use after release, push/pop --copy of undefined and repeated names, removed or shadowed commands used by library scripts); (c) every script of up to n lines over 24 awkward lines (unmatched end/else/elseif/return, fn without name or end, for without array, goto to a missing label, goto loops, calls of undefined functions, ...) run with every command counted and the halt flag raised after 400 command entries; (f) a user function and an alias of it as the condition of if / elseif / while / not (and called plainly) for seven ways the function can end; (g) aliases that stand for themselves directly and through one another; (d) a file that includes itself and a two-file include cycle; (e) for-in loops whose body clears, pops, removes from, releases, grows, replaces or unsets the array being iterated (sizes 0..3, three body shapes). Oracle: control returns with Ok or Err; a panic is caught and reported; an abort (stack overflow) or a hang (more than 4 s of CPU time, or 40 s of wall time, without returning) kills the worker process, is pinned to the case in flight by the supervisor and reported";
+pub const RULE: &str = "(a) every registered command of the standard library (discovered at run time; excluded: read, sleep, exec, spawn, exit, watchdog, everything under std::net, test_directory/test_file, cd, temp_file/temp_dir) x every argument tuple up to the arity bound from a 28-value pool {empty, NaN, a byte array that is not UTF-8 (a character cut off at its end), a map whose keys include 'a=b', the empty key and a key with a line break, a lone line break, multi-byte text at two byte alignments, a, 'a b', j (the name of a decoded JSON array variable set whose length entry is 99999999999), multi-byte, -1, 0, 1, 2.5, 20-digit number, i64::MAX, i64::MIN, live array/map/set/byte-array handle, an array containing its own handle, a map whose child array points back to it, an array holding a map that holds itself (a cycle not through the root), released handle, -r, text with a line break, a flag (each of the 18 option flags the library's commands know)}, each on a freshly prepared context in a scratch working directory that is reset before every case to the tree {file a, file 0, directory 1 with a file} (the quick tier adds every 'flag operand operand' triple); (b) 15 two-step histories (use after release, push/pop --copy of undefined and repeated names, removed or shadowed commands used by library scripts); (c) every script of up to n lines over 24 awkward lines (unmatched end/else/elseif/return, fn without name or end, for without array, goto to a missing label, goto loops, calls of undefined functions, ...) run with every command counted and the halt flag raised after 400 command entries; (f) a user function and an alias of it as the condition of if / elseif / while / not (and called plainly) for seven ways the function can end; (g) aliases that stand for themselves directly and through one another, and user functions invoked through eval; (d) a file that includes itself and a two-file include cycle; (e) for-in loops whose body clears, pops, removes from, releases, grows, replaces or unsets the array being iterated (sizes 0..3, three body shapes). Oracle: control returns with Ok or Err; a panic is caught and reported; an abort (stack overflow) or a hang (more than 4 s of CPU time, or 40 s of wall time, without returning) kills the worker process, is pinned to the case in flight by the supervisor and reported";
 pub const ASSUMPTIONS: &[&str] = &["values that would request huge allocations are not in the pool (allocation failure aborts by design of Rust)", "loop constructs are allowed to loop: they are ended through the halt flag, which is the embedder's documented way"];
 pub const EXHAUSTIVE: bool = true;
 pub const WALL_CAP_S: (u64, u64) = (58, 1700);
